@@ -19,8 +19,11 @@ WORDS = ["a", "b", "c", "foo", "bar", "x1", "héllo", "\\AND", "ANDx", "and", "o
          # spellings other query languages use for the operators (plain words here), signs before two digits,
          # lower-case look-alikes of the time and operator syntax, numbers with an offset
          "&&", "||", "!", "a&&b", "zone-12", "level+10", "15", "45", "2015-12-19t22:30:45z", "t22:30",
-         "2015-12-19T22:30:45+02:00", "iso-8859-15"]
-PHRASES = ['"cafe\u0301 e\u0301"', '"a b"', '""', '"a\\"b"', '"x:y"', '"AND"', '"a (b) [c]"', '"é ü"', '" lead"', '"t\\\\"',
+         "2015-12-19T22:30:45+02:00", "iso-8859-15",
+         # characters that mean something to the machinery a message or an output goes through (%-formatting,
+         # str.format, html, a comment sign): plain characters of a word here
+         "100%", "%s", "%(q)s", "50%d", "{0}", "{x}", "a&b", "#tag"]
+PHRASES = ['"100% sure"', '"cafe\u0301 e\u0301"', '"a b"', '""', '"a\\"b"', '"x:y"', '"AND"', '"a (b) [c]"', '"é ü"', '" lead"', '"t\\\\"',
            '"a\tb"', '"wild*"']
 PHRASES_NL = ['"a\nb"']
 PHRASES_CTRL = ['"a\x0bb"', '"x\u2028y"', '"a\rb"', '"p\x1cq"', '"m\x85n"', '"t\x0cu"']
@@ -230,7 +233,7 @@ def malformed(rng, qg):
 
 TREE_WORDS = ["a", "b", "c", "foo", "*", "fo*", "a b", "=b", "T12", "30", "TO", "a\"b", "x+y", "a-b", "1",
               "AND", "é", "", "a\\ b", "foo\\ ", "\\ x", "e\u0301"]
-TREE_PHRASES = ['"cafe\u0301 e\u0301"', '"a b"', '""', '"x"', '"a\\"b"', '"c d e"']
+TREE_PHRASES = ['"100% sure"', '"cafe\u0301 e\u0301"', '"a b"', '""', '"x"', '"a\\"b"', '"c d e"']
 TREE_REGEX = ["/a/", "//", "/b c/"]
 TREE_FIELDS = ["f", "g", "a.b", "bad name", "é", "", "f1", "a.b.c", "T12", "xT07"]
 
